@@ -32,6 +32,13 @@ impl<CS: ConcurrentStream> ConcurrentStream for Take<CS> {
     where
         C: Consumer<Self::Item, Self::Future>,
     {
+        // Taking zero items means the underlying stream is never driven: there
+        // is nothing to send, so all that is left to do is flush the consumer.
+        if self.limit == 0 {
+            let mut consumer = core::pin::pin!(consumer);
+            return consumer.as_mut().flush().await;
+        }
+
         self.inner
             .drive(TakeConsumer {
                 inner: consumer,
